@@ -108,7 +108,7 @@ func Parse(b []byte) (Spec, bool) {
 	s.FailLen = binary.BigEndian.Uint32(b[offFail:])
 	s.Flags = binary.BigEndian.Uint32(b[offFlags:])
 	s.Fill = len(b) - HeaderLen
-	if s.DelayUs > 120_000_000 || s.ReplyLen > 8<<20 || s.FailLen > 1<<20 {
+	if s.DelayUs > 120_000_000 || s.ReplyLen > 8<<20 || s.FailLen > 8<<20 {
 		// not something the harness generates (a corrupted header): do not
 		// let it make a handler sleep for hours or allocate gigabytes
 		return Spec{}, false
